@@ -2,6 +2,7 @@ import PharmpyModel.Core.Sexp
 import PharmpyModel.C20.Spec
 import PharmpyModel.C20.Cov
 import PharmpyModel.C20.Results
+import PharmpyModel.C20.Json
 open Pharmpy Pharmpy.C20 Pharmpy.C20.Spec
 
 def bad : Sexp := .list [.atom "err", .atom "bad-op"]
@@ -169,6 +170,18 @@ def handle (req : Sexp) : Sexp :=
           | .ok r => sRun r
           | .error e => sErr e
     | _, _ => bad
+  | .list [.atom "jsontable", .list names, .list index, .list cols, .list cells] =>
+    match names.mapM optStr?, index.mapM (fun r => r.asList?.bind (·.mapM str?)), cols.mapM str?,
+        cells.mapM (fun r => r.asList?.bind (·.mapM str?)) with
+    | some names, some index, some cols, some cells =>
+      let t : LTable Str := ⟨names, index, cols, cells⟩
+      let j := encodeTable t
+      let d := decodeTable j
+      .list [sStrs j.fields, sStrs j.primaryKey,
+        .list (j.data.map (fun r => .list (r.map (fun p => .list [sStr p.1, sStr p.2])))),
+        .list [.list (d.indexNames.map sOptS), .list (d.index.map (fun r => .list (r.map sOpt))),
+               sStrs d.cols, .list (d.cells.map (fun r => .list (r.map sOpt)))]]
+    | _, _, _, _ => bad
   | .list [.atom "cov2corr", rows, table] =>
     match ratRows? rows, ratPairs? table with
     | some rows, some table => .list ((cov2corr (ratOps table) rows).map (fun r => .list (r.map sRat)))
